@@ -72,20 +72,21 @@ type sliceRec struct {
 }
 
 type World struct {
-	slots   []*tensor.Dense
-	iters   []tensor.Iterator
-	args    []argRec
-	sargs   []sliceRec
-	backs   []backRec
-	adv     bool // adversarial world: the caller overwrites its argument slices after each call
-	scribN  uint64
-	step    int
-	client  int // client id (C18), 0 otherwise
-	nshared int // slots [0,nshared) are shared, read-only tensors (C18)
-	eng     *FaultEng
-	lastErr string
-	lastRes int // slot the last result is pointer-identical to (-1: none / fresh)
-	opArgs  int // index into args of the first argument of the operation in flight
+	slots     []*tensor.Dense
+	iters     []tensor.Iterator
+	args      []argRec
+	sargs     []sliceRec
+	backs     []backRec
+	graveyard []*tensor.Dense // dropped tensors, kept reachable (see the Drop operation)
+	adv       bool            // adversarial world: the caller overwrites its argument slices after each call
+	scribN    uint64
+	step      int
+	client    int // client id (C18), 0 otherwise
+	nshared   int // slots [0,nshared) are shared, read-only tensors (C18)
+	eng       *FaultEng
+	lastErr   string
+	lastRes   int // slot the last result is pointer-identical to (-1: none / fresh)
+	opArgs    int // index into args of the first argument of the operation in flight
 }
 
 func newWorld(adv bool) *World {
